@@ -657,6 +657,12 @@ func (g *gen) mergeValue(t *node) []byte {
 			form = 1 + g.r.IntN(3)
 		}
 		out = append(out, encStrForm(k, form)...)
+		if j := -1; t != nil && t.kind == kMap {
+			if j = t.find(k); j >= 0 && t.kids[j].kind == kLeaf && famOf(t.kids[j].code) != fNone && g.p(60) {
+				out = append(out, g.retypedValue(t.kids[j])...) // overwrite a numeric with another numeric code
+				continue
+			}
+		}
 		out = append(out, g.value(2)...)
 	}
 	return out
@@ -675,7 +681,17 @@ func (g *gen) removeValue(t *node) []byte {
 	return g.value(2)
 }
 
+func (g *gen) opWithTarget(infos []pinfo) (opJ, *node) {
+	o, _, t := g.opFull(infos)
+	return o, t
+}
+
 func (g *gen) op(infos []pinfo) (opJ, string) {
+	o, v, _ := g.opFull(infos)
+	return o, v
+}
+
+func (g *gen) opFull(infos []pinfo) (opJ, string, *node) {
 	kind := g.r.IntN(8)
 	if g.p(1) {
 		kind = 8 + g.r.IntN(3) // not a documented kind
@@ -713,7 +729,7 @@ func (g *gen) op(infos []pinfo) (opJ, string) {
 			vstate = "absent"
 		}
 	}
-	return opJ{Kind: kind, Name: opName(kind), Path: path, Value: hp(val)}, vstate
+	return opJ{Kind: kind, Name: opName(kind), Path: path, Value: hp(val)}, vstate, target
 }
 
 func (g *gen) cond(infos []pinfo) *condJ {
@@ -814,8 +830,18 @@ func genCase(r *rand.Rand) caseT {
 	if g.p(4) {
 		nops = 0
 	}
+	// half of the lists are biased towards dependent chains: a later op addresses what an
+	// earlier op of the same list wrote (same path or below it)
+	chained := g.p(50)
 	for i := 0; i < nops; i++ {
-		o, _ := g.op(infos)
+		if chained && i > 0 && g.p(75) {
+			c.Ops = append(c.Ops, g.dependentOp(c.Ops))
+			continue
+		}
+		o, target := g.opWithTarget(infos)
+		if chained && target != nil && target.kind == kLeaf && famOf(target.code) != fNone && o.Kind == opSet && g.p(60) {
+			o.Value = hp(g.retypedValue(target)) // numeric overwritten by a numeric of another code
+		}
 		c.Ops = append(c.Ops, o)
 	}
 	if g.p(55) {
